@@ -303,6 +303,27 @@ def rule_R3(text, deltas):
         text = text[:a] + 'verif_fmt()' + text[z:]
 
 
+def rule_R3c(text, deltas):
+    """string constants: xeh_xstr!("..") and the *_TYPE_NAME constants -> verif_lit_xstr()  (message text dropped)"""
+    n = 0
+    while True:
+        toks = code_tokens(text)
+        T = lambda j: text[toks[j][1]:toks[j][2]]
+        hit = None
+        for j in range(len(toks)):
+            t = T(j)
+            if t == 'xeh_xstr' and j + 2 < len(toks) and T(j + 1) == '!' and T(j + 2) == '(':
+                hit = (toks[j][1], toks[match_close(text, toks, j + 2)][2]); break
+            if toks[j][0] == 'ident' and re.match(r'^[A-Z][A-Z_]*_TYPE_NAME$', t):
+                hit = (toks[j][1], toks[j][2]); break
+        if not hit:
+            break
+        deltas.append(dict(rule='R3c', original=text[hit[0]:hit[1]], rewritten='verif_lit_xstr()'))
+        text = text[:hit[0]] + 'verif_lit_xstr()' + text[hit[1]:]
+        n += 1
+    return text
+
+
 def name_return(sig, binder):
     """`-> T` -> `-> (binder: T)`"""
     toks = code_tokens(sig)
@@ -389,6 +410,8 @@ def expand_fn(fs, assumed_override=False, notes=None):
             body = rule_R1(body, deltas)
         if 'R3' in fs.rules:
             body = rule_R3(body, deltas)
+        if 'R3c' in fs.rules:
+            body = rule_R3c(body, deltas)
         for (rule, frm, to, cnt) in fs.subs:
             k = body.count(frm)
             if k == 0 or (cnt is None and k != 1) or (cnt not in (None, '*') and k < int(cnt)):
